@@ -58,8 +58,49 @@ def gen_big(rng, maxlen=6):
     return ("L", rng.random() < 0.5, gen_limbs(rng, maxlen))
 
 
+def fib_pair(rng, maxk=180):
+    """consecutive Fibonacci numbers: the worst case of Euclid's algorithm (most rounds for the size)"""
+    k = rng.choice([5, 12, 30, 40, 46, 47, 48, 70, 92, 93, 94, 120, rng.randint(3, maxk)])
+    x, y = 1, 1
+    for _ in range(k):
+        x, y = y, x + y
+    return x, y
+
+
+def chain_pair(rng, a):
+    """carry / borrow chains: b is the limb-wise complement of a (every limb sum is exactly B-1) plus a little, so that a carry
+    (or, in a subtraction, a borrow) arrives at limbs that sum to B-1 (resp. at all-ones / zero limbs)"""
+    l = list(a[2]) if len(a[2]) > 1 else list(a[2]) + [rng.choice([0, 1, B - 1, rng.randint(0, B - 1)])]
+    a = ("L", a[1], l)
+    comp = [(B - 1 - x) for x in l]
+    if rng.random() < 0.5:
+        k = rng.randrange(len(comp))
+        comp[k] = rng.choice([comp[k], B - 1, 0])
+    v = limbs_val(comp) + rng.choice([0, 1, 1, 2, B - 1, B, B + 1])
+    b = ("L", rng.choice([a[1], a[1], not a[1]]), val_limbs(v))
+    return (a, b) if rng.random() < 0.5 else (b, a)
+
+
+MACHINE_EDGES = sorted(set(s * ((1 << k) + d) for k in (7, 8, 15, 16, 31, 32, 33, 62) for d in (-1, 0, 1) for s in (1, -1))
+                       | {(1 << 63) - 1, -(1 << 63), -(1 << 63) + 1, 0, 1, -1})
+
+
 def gen_big_pair(rng, maxlen=6):
     a = gen_big(rng, maxlen)
+    r = rng.random()
+    if r < 0.07:
+        return chain_pair(rng, a)
+    if r < 0.11:
+        # a power of the limb base (plus a little) against operands with all-ones limbs: borrows run through every limb
+        k = rng.choice([1, 2, 2, 3, 4])
+        a = ("L", rng.random() < 0.5, val_limbs((1 << (32 * k)) + rng.choice([0, 0, 1, B - 1])))
+        b = ("L", rng.random() < 0.5, [rng.choice([1, 2, B - 1, rng.randint(1, B - 1)])] + [B - 1] * rng.randint(1, k))
+        return (a, b) if rng.random() < 0.5 else (b, a)
+    if r < 0.15:
+        x, y = fib_pair(rng, 45 * maxlen)
+        m = rng.choice([1, 1, 1, 2, 3, 641, B - 1])
+        a, b = lit(x * m * rng.choice([1, -1])), lit(y * m * rng.choice([1, -1]))
+        return (a, b) if rng.random() < 0.5 else (b, a)
     r = rng.random()
     if r < 0.08:
         b = a
@@ -108,10 +149,19 @@ def gen_rat(rng, maxlen=3):
         down = ("L", False, [rng.randint(1, 12)])
     if rng.random() < 0.15:
         down = ("L", True, down[2])   # negative denominator handed to from_big_num
+    if rng.random() < 0.05:
+        x, y = fib_pair(rng, 45 * maxlen)                     # numerator and denominator: consecutive Fibonacci numbers (times a factor)
+        m = rng.choice([1, 1, 2, 641])
+        up, down = lit(x * m * rng.choice([1, -1])), lit(y * m)
     return ("N", up, down)
 
 
 def gen_rat_pair(rng, maxlen=3):
+    if rng.random() < 0.06:
+        # integer-valued (or same-denominator) operands whose numerators form a carry chain (see gen_big_pair)
+        x, y = chain_pair(rng, gen_big(rng, maxlen + 1))
+        d = rng.choice([("L", False, [1]), ("L", False, [1]), ("L", False, [rng.choice([2, 3, 7, B - 1])])])
+        return ("N", x, d), ("N", y, d)
     a = gen_rat(rng, maxlen)
     r = rng.random()
     if r < 0.1:
